@@ -3074,16 +3074,6 @@ let is_vchar b =
   (&&) (N.leb (Npos (XI (XO (XO (XO (XO XH)))))) (b2n b))
     (N.leb (b2n b) (Npos (XO (XI (XI (XI (XI (XI XH))))))))
 
-(** val is_ascii_ws : byte -> bool **)
-
-let is_ascii_ws = function
-| X09 -> true
-| X0a -> true
-| X0c -> true
-| X0d -> true
-| X20 -> true
-| _ -> false
-
 (** val is_ows : byte -> bool **)
 
 let is_ows = function
@@ -5140,7 +5130,7 @@ let parse_header_line line =
     if (||) (Nat.eqb colon O) (negb (forallb is_valid_header_field_byte nm))
     then Err EHeader
     else bind (str_unchecked nm) (fun name -> Ok (name,
-           (trim_start is_ascii_ws (skipn (S colon) line))))
+           (trim_start is_ows (skipn (S colon) line))))
   | None -> Err EHeader
 
 (** val parse_headers_f : nat -> headers -> bytes -> (headers * bytes) res **)
@@ -5858,7 +5848,7 @@ let strict_head s =
 (** val field_value : bytes -> bytes **)
 
 let field_value raw =
-  drop_while is_ascii_ws raw
+  drop_while is_ows raw
 
 (** val sfield_pairs : sfield list -> (bytes * bytes) list **)
 
